@@ -106,6 +106,13 @@ def gen_cases(tier, seed):
                     dims=(2, 2), cost=90)
         add(variant=variant, singles=False, q='ev', order=4, k=1, dims=(2, 2),
             cost=120)
+        # the Taylor series of the norm factor as a series in symbolic overlaps
+        # (orders the explicit comparison above can not afford: cubic and higher
+        # powers of S^(k) first occur at order 6 for min_order 2)
+        for singles in (False, True):
+            for order in ((6, 7, 8, 9) if tier == 'quick' else range(0, 13)):
+                add(variant=variant, singles=singles, q='normseries', order=order,
+                    dims=(2, 2), cost=3)
     if tier == 'thorough':
         for variant in ('mp', 're'):
             for singles in (False, True):
@@ -143,11 +150,117 @@ def _warm_up(gs, r, case):
         f()
 
 
+def _compositions(order, length, min_order):
+    """all ordered tuples of `length` integers >= min_order that sum to `order`
+    (written independently of adcgen.func.gen_term_orders: recursion on the first
+    entry)"""
+    if length == 0:
+        return [()] if order == 0 else []
+    out = []
+    for first in range(min_order, order + 1):
+        for rest in _compositions(order - first, length - 1, min_order):
+            out.append((first,) + rest)
+    return out
+
+
+def _inverse_series(order, min_order):
+    """coefficient of lambda^order of 1/(1 + sum_{k>=min_order} lambda^k s_k) as
+    {sorted tuple of k's: integer coefficient}, by the recursion
+    c_n = - sum_k s_k c_{n-k}, c_0 = 1."""
+    c = [{(): 1}]
+    for n in range(1, order + 1):
+        cur = {}
+        for k in range(min_order, n + 1):
+            for mono, v in c[n - k].items():
+                m = tuple(sorted(mono + (k,)))
+                cur[m] = cur.get(m, 0) - v
+        c.append({m: v for m, v in cur.items() if v})
+    return c[order]
+
+
+def _run_normseries(case, res):
+    """expand_norm_factor / norm_factor as a series in symbolic overlaps S^(k),
+    and every gen_term_orders call observed on the way, against an independently
+    written inverse power series / enumeration of compositions."""
+    from adcgen import GroundState, Operators
+    from adcgen import func as afunc
+    from sympy import Symbol, Add, Mul, Pow, Integer, expand
+    from .. import monitor
+    variant, singles, order = case['variant'], case['singles'], case['order']
+    res.fingerprint = fp(variant, singles, 'normseries', order)
+    gs = GroundState(Operators(variant), singles)
+    seen = []
+
+    def term_orders_recorded(order, term_length, min_order, result):
+        seen.append((order, term_length, min_order, list(result)))
+        return True
+    undo = monitor.rebind(afunc, 'gen_term_orders', monitor.ensure(
+        term_orders_recorded)(afunc.gen_term_orders))
+    try:
+        # direct grid of gen_term_orders requests (properties / secular matrix /
+        # intermediate states use lengths 2-3 with min_order 0)
+        for length in range(0, 5):
+            for mo in range(0, 4):
+                lib_call(afunc.gen_term_orders, order=min(order, 8),
+                         term_length=length, min_order=mo)
+        for mo in (1, 2, 3):
+            exp = _inverse_series(order, mo) if order >= mo else {(order,): 1}
+            ret = lib_call(gs.expand_norm_factor, order, mo)
+            got = {}
+            for pref, orders in ret:
+                for t in orders:
+                    m = tuple(sorted(t))
+                    got[m] = got.get(m, 0) + pref
+            got = {m: v for m, v in got.items() if v != 0}
+            res.count('norm_series_compared')
+            res.count('points_compared', len(exp))
+            if {m: int(v) for m, v in got.items()} != exp or \
+                    any(v != int(v) for v in got.values()):
+                miss = sorted(set(exp) - set(got))[:3]
+                res.violation(f'expand_norm_factor({order}, min_order={mo}) is not '
+                              f'the order-{order} coefficient of 1/(1 + sum_k '
+                              f'lambda^k S^(k)): monomials missing {miss}, '
+                              f'library {sorted(got.items())[:6]} vs series '
+                              f'{sorted(exp.items())[:6]}')
+                return
+        # norm_factor on symbolic overlaps (the overlap member replaced on this
+        # instance only): must be the same series with min_order 2
+        gs.overlap = lambda o: Integer(1) if o == 0 else \
+            (Integer(0) if o == 1 else Symbol(f's{o}'))
+        nf = expand(lib_call(gs.norm_factor, order))
+        exp = _inverse_series(order, 2) if order >= 2 else \
+            ({(): 1} if order == 0 else {})
+        ref = Add(*[v * Mul(*[Symbol(f's{k}') for k in m])
+                    for m, v in exp.items()])
+        res.count('norm_compared')
+        res.count('nonzero_reference_points', int(bool(exp)))
+        res.nontrivial = bool(exp)
+        if expand(nf - ref) != 0:
+            res.violation(f'norm_factor({order}) on symbolic overlaps = {nf} != '
+                          f'inverse series coefficient {expand(ref)}')
+            return
+    finally:
+        undo()
+    res.count('gen_term_orders_calls', len(seen))
+    for o, length, mo, result in seen:
+        exp = sorted(_compositions(o, length, mo))
+        if sorted(tuple(t) for t in result) != exp:
+            res.violation(f'gen_term_orders(order={o}, term_length={length}, '
+                          f'min_order={mo}) = {sorted(result)[:8]} != all '
+                          f'compositions {exp[:8]} ({len(result)} vs {len(exp)})')
+            return
+    res.observed = {'order': order, 'gen_term_orders_calls': len(seen),
+                    'series_monomials_min2': len(_inverse_series(order, 2))
+                    if order >= 2 else 0}
+
+
 def run_case(case, res):
     from adcgen import GroundState, Operators, get_symbols
     from .. import tm, gsref
     variant, singles, order = case['variant'], case['singles'], case['order']
     n_o, n_v = case['dims']
+    if case['q'] == 'normseries':
+        return _run_normseries(case, res)
     r = rng_for(case['hseed'], 'hist')
     need = max(order, 1)
     ref = None
